@@ -94,18 +94,21 @@ impl Subscription {
 }
 type S = Schema<Query, Mutation, Subscription>;
 /// Server-side configurations: validation mode x request limits ("strict" is the default everywhere).
-const SCHEMA_CFGS: [&str; 4] = ["strict", "fast", "strict_limits", "fast_limits"];
+/// "raised": the application raised limit_recursive_depth, so that the parser's own nesting limit is the only bound left.
+const SCHEMA_CFGS: [&str; 5] = ["strict", "fast", "strict_limits", "fast_limits", "raised"];
 fn schema_cfg(cfg: &str) -> S {
     let mut b = Schema::build(Query, Mutation, Subscription).extension(ApolloPersistedQueries::new(LruCacheStorage::new(16)));
     if cfg.starts_with("fast") { b = b.validation_mode(ValidationMode::Fast); }
     if cfg.ends_with("_limits") { b = b.limit_directives(8).limit_depth(40).limit_complexity(5000); }
+    if cfg == "raised" { b = b.limit_recursive_depth(1_000_000); }
     b.finish()
 }
 struct Schemas(Vec<S>);
 impl Schemas {
     fn new() -> Self { Schemas(SCHEMA_CFGS.iter().map(|c| schema_cfg(c)).collect()) }
     fn of(&self, case: &J) -> &S {
-        let cfg = if case["class"] == "small_cycle" { case["sub"].as_str().unwrap_or("strict") } else { "strict" };
+        let cfg = if case["class"] == "small_cycle" { case["sub"].as_str().unwrap_or("strict") }
+                  else if case["class"] == "nest_sel" && case["sub"] == "raised" { "raised" } else { "strict" };
         &self.0[SCHEMA_CFGS.iter().position(|c| *c == cfg).unwrap_or_else(|| tool_error("unknown schema configuration"))]
     }
 }
@@ -184,6 +187,14 @@ fn document_case(class: &str, pos: &str, sub: &str, k: usize) -> Option<Lr> {
         ("nest_sel", "field") => lr(format!("{{ {}v{} }}", rep("t { ", k), rep(" }", k))),
         ("nest_sel", "inline") => lr(format!("{{ {}int{} }}", rep("... { ", k), rep(" }", k))),
         ("nest_sel", "fragment_def") => lr(format!("fragment F on Query {{ {}v{} }} {{ ...F }}", rep("t { ", k), rep(" }", k))),
+        // selection sets nested through inline fragments (sub = server configuration, see Schemas::of)
+        ("nest_sel", "inline_untyped") => lr(format!("{{ {}int{} }}", rep("... { ", k), rep(" }", k))),
+        ("nest_sel", "inline_typed") => lr(format!("{{ {}int{} }}", rep("... on Query { ", k), rep(" }", k))),
+        ("nest_sel", "inline_directive") => lr(format!("{{ {}int{} }}", rep("... @include(if: true) { ", k), rep(" }", k))),
+        ("nest_sel", "inline_mixed") => lr(format!("{{ t {{ {}v{} }} }}", mixed_open(k, 3), rep(" }", k))),
+        ("nest_sel", "inline_alt_field") => lr(format!("{{ t {{ {}v{} }} }}", mixed_open(k, 2), rep(" }", k))),
+        ("nest_sel", "inline_in_fragment") => lr(format!("fragment F on Query {{ {}int{} }} {{ ...F }}", rep("... { ", k), rep(" }", k))),
+        ("nest_sel", "inline_mixed_in_fragment") => lr(format!("fragment F on T {{ {}v{} }} {{ t {{ ...F }} }}", mixed_open(k, 3), rep(" }", k))),
         ("nest_sel", "unclosed") => lr(format!("{{ {}v", rep("t { ", k))),
         ("nest_vartype", "list") => lr(format!("query($v: {}Int{}) {{ int }}", rep("[", k), rep("]", k))),
         ("nest_vartype", "nonnull") => lr(format!("query($v: {}Int{}) {{ int }}", rep("[", k), rep("!]", k))),
@@ -353,6 +364,15 @@ fn document_case(class: &str, pos: &str, sub: &str, k: usize) -> Option<Lr> {
         },
         _ => return None,
     })
+}
+
+/// k opening levels below a selection on type T: typed inline fragment, (m = 3: untyped inline fragment,) field, in turn.
+fn mixed_open(k: usize, m: usize) -> String {
+    let mut s = String::new();
+    for i in 0..k {
+        s.push_str(match (m, i % m) { (3, 0) => "... on T { ", (3, 1) | (2, 0) => "... { ", _ => "t { " });
+    }
+    s
 }
 
 fn request_body(l: &Lr) -> Vec<u8> {
@@ -686,8 +706,25 @@ fn features(case: &J) -> J {
     if case["transport"] == "get" && case["class"] == "mutation" { bytes = percent_encoding::percent_decode(&bytes).collect(); }
     let text = String::from_utf8_lossy(&bytes).to_string();
     let (mut depth, mut max_depth) = (0i64, 0i64);
+    // val: [ anywhere and { inside parentheses (values, variable definitions); sel: { outside parentheses (selection sets)
+    let (mut paren, mut val, mut max_val, mut sel, mut max_sel) = (0i64, 0i64, 0i64, 0i64, 0i64);
+    let mut kinds: Vec<bool> = Vec::new();     // open brackets: true = counted as value nesting
     for b in &bytes {
-        match b { b'[' | b'{' => { depth += 1; max_depth = max_depth.max(depth); } b']' | b'}' => depth = (depth - 1).max(0), _ => {} }
+        match b {
+            b'(' => paren += 1,
+            b')' => paren = (paren - 1).max(0),
+            b'[' | b'{' => {
+                depth += 1; max_depth = max_depth.max(depth);
+                let v = *b == b'[' || paren > 0;
+                kinds.push(v);
+                if v { val += 1; max_val = max_val.max(val); } else { sel += 1; max_sel = max_sel.max(sel); }
+            }
+            b']' | b'}' => {
+                depth = (depth - 1).max(0);
+                match kinds.pop() { Some(true) => val -= 1, Some(false) => sel -= 1, None => {} }
+            }
+            _ => {}
+        }
     }
     // `$name : [ [ X` with X not a type of the schema
     const KNOWN: [&str; 9] = ["Int", "Float", "String", "Boolean", "ID", "Color", "Inp", "JSON", "Upload"];
@@ -712,7 +749,7 @@ fn features(case: &J) -> J {
         } else { i += 1; }
     }
     let lower = text.to_ascii_lowercase();
-    json!({"marker": text.contains(MARK), "undef": undef, "depth": max_depth, "frags": text.matches("fragment ").count(),
+    json!({"marker": text.contains(MARK), "undef": undef, "depth": max_depth, "val": max_val, "sel": max_sel, "frags": text.matches("fragment ").count(),
            "mpmp": lower.contains("content-type: multipart/") })
 }
 
